@@ -1177,6 +1177,7 @@ nni_http_set_uri(nng_http *conn, const char *uri, const char *query)
 {
 	size_t      needed;
 	const char *fmt;
+	char       *nuri;
 
 	if (query != NULL) {
 		fmt    = strchr(uri, '?') != NULL ? "%s&%s" : "%s?%s";
@@ -1192,21 +1193,25 @@ nni_http_set_uri(nng_http *conn, const char *uri, const char *query)
 		// no change, do nothing
 		return (NNG_OK);
 	}
-	if (conn->uri != NULL && conn->uri != conn->ubuf) {
-		nni_strfree(conn->uri);
-	}
-
 	// fast path, small size URI fits in our buffer
 	if (needed < sizeof(conn->ubuf)) {
+		if (conn->uri != NULL && conn->uri != conn->ubuf) {
+			nni_strfree(conn->uri);
+		}
 		snprintf(conn->ubuf, sizeof(conn->ubuf), fmt, uri, query);
 		conn->uri = conn->ubuf;
 		return (NNG_OK);
 	}
 
-	// too big, we have to allocate it (slow path)
-	if (nni_asprintf(&conn->uri, fmt, uri, query) != 0) {
+	// too big, we have to allocate it (slow path); the old URI stays
+	// in place if that fails
+	if (nni_asprintf(&nuri, fmt, uri, query) != 0) {
 		return (NNG_ENOMEM);
 	}
+	if (conn->uri != NULL && conn->uri != conn->ubuf) {
+		nni_strfree(conn->uri);
+	}
+	conn->uri = nuri;
 	return (NNG_OK);
 }
 
